@@ -268,7 +268,7 @@ Definition access_of (J : jar) (b : mref) : option acc :=
   fold_left (fun o e => if mref_eqb b (fst e) then Some (jm_acc (snd e)) else o) (jar_methods J) None.
 (* the body of (some method with reference) b invokes the object-class method r *)
 Definition invoked_in (l : list (mref * jmeth)) (b r : mref) : Prop :=
-  exists m c, In (b, m) l /\ jm_code m = Some c /\ In r c /\ is_obj_ref r = true.
+  exists m c, In (b, m) l /\ jm_code m = Some c /\ In r (targets c) /\ is_obj_ref r = true.
 Definition invoked (J : jar) : mref -> mref -> Prop := invoked_in (jar_methods J).
 
 (* ---- ix_methods ---- *)
@@ -303,7 +303,7 @@ Definition refs_inv (l : list (mref * jmeth)) (rs : list (mref * list mref)) : P
 
 Lemma invoked_in_snoc l e b r :
   invoked_in (l ++ [e]) b r <->
-  invoked_in l b r \/ (fst e = b /\ exists c, jm_code (snd e) = Some c /\ In r c /\ is_obj_ref r = true).
+  invoked_in l b r \/ (fst e = b /\ exists c, jm_code (snd e) = Some c /\ In r (targets c) /\ is_obj_ref r = true).
 Proof.
   unfold invoked_in. split.
   - intros (m & c & Hi & Hc & Hr & Ho). apply in_app_iff in Hi. destruct Hi as [Hi|[Ee|[]]].
@@ -316,7 +316,7 @@ Qed.
 
 Lemma refs_step l rs e : refs_inv l rs ->
   refs_inv (l ++ [e]) (match jm_code (snd e) with
-                       | Some c => map_upd mref_eqb (fst e) [] (set_extend mref_eqb (filter is_obj_ref c)) rs
+                       | Some c => map_upd mref_eqb (fst e) [] (set_extend mref_eqb (filter is_obj_ref (targets c))) rs
                        | None => rs
                        end).
 Proof.
@@ -349,7 +349,7 @@ Qed.
 Lemma refs_fold rest : forall pre rs, refs_inv pre rs ->
   refs_inv (pre ++ rest)
     (fold_left (fun rs e => match jm_code (snd e) with
-                            | Some l => map_upd mref_eqb (fst e) [] (set_extend mref_eqb (filter is_obj_ref l)) rs
+                            | Some l => map_upd mref_eqb (fst e) [] (set_extend mref_eqb (filter is_obj_ref (targets l))) rs
                             | None => rs
                             end) rest rs).
 Proof.
@@ -381,6 +381,82 @@ Proof.
         assert (y = s) by (apply Hall; right; left; reflexivity). subst y.
         inversion Hn as [|? ? Hx _]. exfalso. apply Hx. left. reflexivity.
     + exfalso. apply (H s). apply Hs. reflexivity.
+Qed.
+
+
+(* ---- the rule over the instruction list ---- *)
+(* which instructions count: the four method invocations, whatever their kind and interface flag; nothing else *)
+Lemma invoke_target_cases i r : invoke_target i = Some r <->
+  i = IVirtual r \/ (exists itf, i = ISpecial r itf) \/ (exists itf, i = IStatic r itf) \/ i = IInterface r.
+Proof.
+  split.
+  - destruct i as [r'|r' itf|r' itf|r'|n d|]; cbn [invoke_target]; intros [= ->]; eauto.
+  - intros [-> | [(itf & ->) | [(itf & ->) | -> ]]]; reflexivity.
+Qed.
+
+Lemma targets_In l r : In r (targets l) <-> exists i, In i l /\ invoke_target i = Some r.
+Proof.
+  unfold targets. rewrite in_flat_map. split.
+  - intros (i & Hi & Hr). exists i. split; [exact Hi|]. destruct (invoke_target i) as [r'|]; [|destruct Hr].
+    destruct Hr as [->|[]]. reflexivity.
+  - intros (i & Hi & E). exists i. split; [exact Hi|]. rewrite E. left. reflexivity.
+Qed.
+
+(* b invokes r: some instruction of (a body of) b is one of the four invocations and carries r, and r's owner is
+   not an array class.  invokedynamic and all other instructions play no part. *)
+Lemma invoked_insn J b r : invoked J b r <->
+  exists m c i, In (b, m) (jar_methods J) /\ jm_code m = Some c /\ In i c /\ invoke_target i = Some r /\ is_obj_ref r = true.
+Proof.
+  unfold invoked, invoked_in. split.
+  - intros (m & c & Hi & Hc & Hr & Ho). apply targets_In in Hr. destruct Hr as (i & Hic & Ei). exists m, c, i. auto.
+  - intros (m & c & i & Hi & Hc & Hic & Ei & Ho). exists m, c. split; [exact Hi|]. split; [exact Hc|]. split; [|exact Ho].
+    apply targets_In. exists i. auto.
+Qed.
+
+(* "exactly one distinct method": the distinct (owner, name, descriptor) triples among the invocations of the body,
+   array owners dropped, first occurrences in order — the set the visitor stores for the method *)
+Definition distinct_callees (c : list insn) : list mref := set_extend mref_eqb (filter is_obj_ref (targets c)) [].
+
+Lemma distinct_callees_spec c : NoDup (distinct_callees c) /\
+  forall r, In r (distinct_callees c) <-> (exists i, In i c /\ invoke_target i = Some r) /\ is_obj_ref r = true.
+Proof.
+  unfold distinct_callees. split; [apply (set_extend_NoDup mref_eqb mref_eqb_dec); constructor|].
+  intros r. rewrite (set_extend_In mref_eqb mref_eqb_dec), filter_In, targets_In. cbn [In]. tauto.
+Qed.
+
+Lemma nodup_singleton {A} (c : list A) s : NoDup c -> (forall r, In r c <-> r = s) -> c = [s].
+Proof.
+  intros Hn Hall. destruct c as [|x c].
+  - exfalso. apply (proj2 (Hall s) eq_refl).
+  - assert (x = s) by (apply Hall; left; reflexivity). subst x. destruct c as [|y c]; [reflexivity|].
+    assert (y = s) by (apply Hall; right; left; reflexivity). subst y.
+    inversion Hn as [|? ? Hx _]. exfalso. apply Hx. left. reflexivity.
+Qed.
+
+(* for a method that occurs once in the jar: it invokes exactly the one method s iff the count of distinct callees of
+   its body is one, and that callee is s — same callee through several invoke kinds or several times counts once,
+   same name and descriptor on another owner counts as another method *)
+Lemma one_callee_count J b m c s :
+  (forall m', In (b, m') (jar_methods J) -> m' = m) -> In (b, m) (jar_methods J) -> jm_code m = Some c ->
+  ((forall r, invoked J b r <-> r = s) <-> distinct_callees c = [s]).
+Proof.
+  intros Hu Hi Hc. destruct (distinct_callees_spec c) as [Hn Hd].
+  assert (Hinv : forall r, invoked J b r <-> In r (distinct_callees c)).
+  { intros r. rewrite invoked_insn, Hd. split.
+    - intros (m' & c' & i & Hi' & Hc' & Hic & Ei & Ho). apply Hu in Hi'. subst m'. rewrite Hc in Hc'. injection Hc' as <-. eauto.
+    - intros [(i & Hic & Ei) Ho]. exists m, c, i. auto. }
+  split.
+  - intros Hs. apply nodup_singleton; [exact Hn|]. intros r. rewrite <- Hinv. apply Hs.
+  - intros E r. rewrite Hinv, E. cbn [In]. split; [intros [<-|[]]; reflexivity|intros ->; left; reflexivity].
+Qed.
+
+(* a method without Code, or whose body has no invocation of an object-class method, invokes nothing *)
+Lemma no_invocation_no_callee J b :
+  (forall m c i r, In (b, m) (jar_methods J) -> jm_code m = Some c -> In i c -> invoke_target i = Some r -> is_obj_ref r = false) ->
+  forall r, ~ invoked J b r.
+Proof.
+  intros H r Hr. apply invoked_insn in Hr. destruct Hr as (m & c & i & Hi & Hc & Hic & Ei & Ho).
+  rewrite (H m c i r Hi Hc Hic Ei) in Ho. discriminate.
 Qed.
 
 
@@ -485,7 +561,7 @@ Proof.
   unfold ix_children. apply (children_fold J [] []). intros c. cbn [map_get]. intros y. apply parent_nil.
 Qed.
 
-(* ---- the work-list computes the transitive closure (as a set) ---- *)
+(* ---- the work-list computes the transitive closure (as a set), on every table, cyclic or not ---- *)
 Lemma t1n_unfold (R : str -> str -> Prop) c x :
   clos_trans_1n str R c x <-> R c x \/ exists y, R c y /\ clos_trans_1n str R y x.
 Proof.
@@ -494,39 +570,136 @@ Proof.
   - intros [Hr|(y & Hr & Ht)]; [apply t1n_step; exact Hr|apply (t1n_trans _ _ _ y); assumption].
 Qed.
 
-Lemma walk_spec R G : graph_inv R G -> forall fuel stack out r,
-  walk fuel G stack out = Ok r ->
-  forall x, In x r <-> In x out \/ exists c, In c stack /\ clos_trans_1n str R c x.
+(* the visited-set work-list.  [fresh ys out]: the entries of ys that are not yet listed, first occurrences, in
+   order — what one expansion adds to the output and (reversed) to the stack *)
+Fixpoint fresh (ys out : list str) : list str :=
+  match ys with
+  | [] => []
+  | y :: ys' => if mem_str y out then fresh ys' out else y :: fresh ys' (out ++ [y])
+  end.
+
+Lemma push_new_eq ys : forall stack out, push_new ys stack out = (rev (fresh ys out) ++ stack, out ++ fresh ys out).
 Proof.
-  intros Hg fuel. induction fuel as [|f IH]; intros stack out r Hw x.
-  - destruct stack as [|c q]; cbn [walk] in Hw; [|discriminate]. injection Hw as ->.
-    split; [auto|intros [Hi|(c & [] & _)]; exact Hi].
-  - destruct stack as [|c q]; cbn [walk] in Hw.
-    + injection Hw as ->. split; [auto|intros [Hi|(c & [] & _)]; exact Hi].
-    + pose proof (Hg c) as Hc. destruct (map_get str_eqb c G) as [ys|].
-      * rewrite (IH _ _ _ Hw x). rewrite in_app_iff. split.
-        -- intros [[Hi|Hi]|(c' & Hc' & Ht)].
-           ++ left. exact Hi.
-           ++ right. exists c. split; [left; reflexivity|]. apply t1n_step, Hc, Hi.
+  induction ys as [|y ys IH]; intros stack out; cbn [push_new fresh].
+  - cbn [rev app]. rewrite app_nil_r. reflexivity.
+  - destruct (mem_str y out); [apply IH|]. rewrite IH. cbn [rev]. rewrite <- !app_assoc. reflexivity.
+Qed.
+
+Lemma mem_str_In x l : mem_str x l = true <-> In x l.
+Proof. apply (set_mem_In str_eqb str_eqb_dec). Qed.
+
+Lemma fresh_In ys : forall out x, In x (fresh ys out) <-> In x ys /\ ~ In x out.
+Proof.
+  induction ys as [|y ys IH]; intros out x; cbn [fresh In]; [tauto|].
+  destruct (mem_str y out) eqn:E.
+  - apply mem_str_In in E. rewrite IH. split; [tauto|]. intros [[<-|Hi] Hn]; [contradiction|auto].
+  - assert (Hy : ~ In y out) by (intros Hi; apply mem_str_In in Hi; congruence).
+    cbn [In]. rewrite IH, in_app_iff. cbn [In]. split.
+    + intros [<-|[Hi Hn]]; [auto|]. split; [auto|]. intros Ho. apply Hn. left. exact Ho.
+    + intros [[<-|Hi] Hn]; [auto|]. destruct (str_eqb x y) eqn:Exy.
+      * apply str_eqb_eq in Exy. left. symmetry. exact Exy.
+      * right. split; [exact Hi|]. intros [Ho|[->|[]]]; [contradiction|]. rewrite str_eqb_refl in Exy. discriminate.
+Qed.
+
+Lemma NoDup_snoc {A} (l : list A) y : NoDup l -> ~ In y l -> NoDup (l ++ [y]).
+Proof.
+  intros Hn Hy. induction l as [|a l IH]; cbn [app]; [constructor; [intros []|constructor]|].
+  inversion Hn as [|? ? Ha Hl]; subst. constructor.
+  - rewrite in_app_iff. cbn [In]. intros [Hi|[->|[]]]; [contradiction|apply Hy; left; reflexivity].
+  - apply IH; [exact Hl|intros Hi; apply Hy; right; exact Hi].
+Qed.
+
+Lemma fresh_NoDup ys : forall out, NoDup out -> NoDup (out ++ fresh ys out).
+Proof.
+  induction ys as [|y ys IH]; intros out Hn; cbn [fresh]; [rewrite app_nil_r; exact Hn|].
+  destruct (mem_str y out) eqn:E; [apply IH; exact Hn|].
+  assert (Hy : ~ In y out) by (intros Hi; apply mem_str_In in Hi; congruence).
+  replace (out ++ y :: fresh ys (out ++ [y])) with ((out ++ [y]) ++ fresh ys (out ++ [y])) by (rewrite <- app_assoc; reflexivity).
+  apply IH. apply NoDup_snoc; assumption.
+Qed.
+
+Lemma walk_cons_some f G c q out ys : map_get str_eqb c G = Some ys ->
+  walk (S f) G (c :: q) out = walk f G (rev (fresh ys out) ++ q) (out ++ fresh ys out).
+Proof. intros E. cbn [walk]. rewrite E, push_new_eq. reflexivity. Qed.
+
+Lemma walk_cons_none f G c q out : map_get str_eqb c G = None -> walk (S f) G (c :: q) out = walk f G q out.
+Proof. intros E. cbn [walk]. rewrite E. reflexivity. Qed.
+
+(* the invariant of a work-list with a visited set: a listed class is still on the stack, or all its
+   successors are listed *)
+Definition closed_inv (R : str -> str -> Prop) (stack out : list str) : Prop :=
+  forall y, In y out -> In y stack \/ forall z, R y z -> In z out.
+
+Lemma walk_inv R G : graph_inv R G -> forall fuel stack out r,
+  walk fuel G stack out = Ok r -> closed_inv R stack out ->
+  incl out r /\
+  (forall c, In c stack -> forall z, R c z -> In z r) /\
+  (forall y, In y r -> forall z, R y z -> In z r) /\
+  (forall x, In x r -> In x out \/ exists c, In c stack /\ clos_trans_1n str R c x).
+Proof.
+  intros Hg fuel. induction fuel as [|f IH]; intros stack out r Hw Hinv.
+  - destruct stack as [|c q]; cbn [walk] in Hw; [|discriminate]. injection Hw as <-.
+    split; [apply incl_refl|]. split; [intros c []|]. split; [|auto].
+    intros y Hy z Hr. destruct (Hinv y Hy) as [[]|Hc]. exact (Hc z Hr).
+  - destruct stack as [|c q].
+    + cbn [walk] in Hw. injection Hw as <-.
+      split; [apply incl_refl|]. split; [intros c []|]. split; [|auto].
+      intros y Hy z Hr. destruct (Hinv y Hy) as [[]|Hc]. exact (Hc z Hr).
+    + pose proof (Hg c) as Hc. destruct (map_get str_eqb c G) as [ys|] eqn:E.
+      * rewrite (walk_cons_some _ _ _ _ _ _ E) in Hw.
+        assert (Hinv' : closed_inv R (rev (fresh ys out) ++ q) (out ++ fresh ys out)).
+        { intros y Hy. apply in_app_iff in Hy. destruct Hy as [Hy|Hy].
+          - destruct (Hinv y Hy) as [[<-|Hq]|Hcl].
+            + right. intros z Hr. apply Hc in Hr. apply in_app_iff.
+              destruct (mem_str z out) eqn:Ez; [left; apply mem_str_In; exact Ez|].
+              right. apply fresh_In. split; [exact Hr|]. intros Hi. apply mem_str_In in Hi. congruence.
+            + left. apply in_app_iff. right. exact Hq.
+            + right. intros z Hr. apply in_app_iff. left. exact (Hcl z Hr).
+          - left. apply in_app_iff. left. apply in_rev. rewrite rev_involutive. exact Hy. }
+        destruct (IH _ _ _ Hw Hinv') as (H1 & H2 & H3 & H4).
+        split; [intros x Hx; apply H1, in_app_iff; left; exact Hx|].
+        split; [|split; [exact H3|]].
+        -- intros c' [<-|Hq] z Hr.
+           ++ apply H1. apply Hc in Hr. apply in_app_iff.
+              destruct (mem_str z out) eqn:Ez; [left; apply mem_str_In; exact Ez|].
+              right. apply fresh_In. split; [exact Hr|]. intros Hi. apply mem_str_In in Hi. congruence.
+           ++ apply (H2 c'); [apply in_app_iff; right; exact Hq|exact Hr].
+        -- intros x Hx. destruct (H4 x Hx) as [Ho|(c' & Hc' & Ht)].
+           ++ apply in_app_iff in Ho. destruct Ho as [Ho|Ho]; [left; exact Ho|].
+              right. exists c. split; [left; reflexivity|]. apply t1n_step, Hc. apply fresh_In in Ho. tauto.
            ++ apply in_app_iff in Hc'. destruct Hc' as [Hc'|Hc'].
               ** right. exists c. split; [left; reflexivity|]. apply (t1n_trans _ _ _ c'); [|exact Ht].
-                 apply Hc. apply in_rev. exact Hc'.
+                 apply Hc. apply in_rev in Hc'. apply fresh_In in Hc'. tauto.
               ** right. exists c'. split; [right; exact Hc'|exact Ht].
-        -- intros [Hi|(c' & [<-|Hc'] & Ht)].
-           ++ left. left. exact Hi.
-           ++ apply t1n_unfold in Ht. destruct Ht as [Hr|(y & Hr & Ht)].
-              ** left. right. apply Hc. exact Hr.
-              ** right. exists y. split; [|exact Ht]. apply in_app_iff. left. apply in_rev. rewrite rev_involutive. apply Hc. exact Hr.
-           ++ right. exists c'. split; [|exact Ht]. apply in_app_iff. right. exact Hc'.
-      * rewrite (IH _ _ _ Hw x). split.
-        -- intros [Hi|(c' & Hc' & Ht)]; [left; exact Hi|right; exists c'; split; [right; exact Hc'|exact Ht]].
-        -- intros [Hi|(c' & [<-|Hc'] & Ht)]; [left; exact Hi| |right; exists c'; split; assumption].
-           exfalso. apply t1n_unfold in Ht. destruct Ht as [Hr|(y & Hr & _)]; exact (Hc _ Hr).
+      * rewrite (walk_cons_none _ _ _ _ _ E) in Hw.
+        assert (Hinv' : closed_inv R q out).
+        { intros y Hy. destruct (Hinv y Hy) as [[<-|Hq]|Hcl]; [|left; exact Hq|right; exact Hcl].
+          right. intros z Hr. exfalso. exact (Hc z Hr). }
+        destruct (IH _ _ _ Hw Hinv') as (H1 & H2 & H3 & H4).
+        split; [exact H1|]. split; [|split; [exact H3|]].
+        -- intros c' [<-|Hq] z Hr; [exfalso; exact (Hc z Hr)|exact (H2 c' Hq z Hr)].
+        -- intros x Hx. destruct (H4 x Hx) as [Ho|(c' & Hc' & Ht)]; [left; exact Ho|].
+           right. exists c'. split; [right; exact Hc'|exact Ht].
 Qed.
+
+Lemma walk_spec R G : graph_inv R G -> forall fuel stack out r,
+  walk fuel G stack out = Ok r -> closed_inv R stack out ->
+  forall x, In x r <-> In x out \/ exists c, In c stack /\ clos_trans_1n str R c x.
+Proof.
+  intros Hg fuel stack out r Hw Hinv. destruct (walk_inv R G Hg _ _ _ _ Hw Hinv) as (H1 & H2 & H3 & H4).
+  assert (Hcl : forall y x, clos_trans_1n str R y x -> In y r -> In x r).
+  { intros y x Ht. induction Ht as [y x Hr|y z x Hr Ht IHt]; intros Hy; [exact (H3 y Hy x Hr)|].
+    apply IHt. exact (H3 y Hy z Hr). }
+  intros x. split; [apply H4|]. intros [Ho|(c & Hc & Ht)]; [apply H1; exact Ho|].
+  destruct Ht as [x Hr|z x Hr Ht]; [exact (H2 c Hc x Hr)|]. apply (Hcl z x Ht). exact (H2 c Hc z Hr).
+Qed.
+
+Lemma closed_inv_start R s : closed_inv R [s] [].
+Proof. intros y []. Qed.
 
 Lemma ancestors_spec J fuel s l : walk fuel (ix_parents J) [s] [] = Ok l -> forall a, In a l <-> ancestor J s a.
 Proof.
-  intros Hw a. rewrite (walk_spec _ _ (ix_parents_spec J) _ _ _ _ Hw a). cbn [In]. unfold ancestor. split.
+  intros Hw a. rewrite (walk_spec _ _ (ix_parents_spec J) _ _ _ _ Hw (closed_inv_start _ s) a). cbn [In]. unfold ancestor. split.
   - intros [[]|(c & [<-|[]] & Ht)]. exact Ht.
   - intros Ht. right. exists s. auto.
 Qed.
